@@ -312,7 +312,7 @@ Definition regex_map (names : list string) (re : string) : expr :=
   WithId (fun id =>
     let i := string_of_N id in
     Sep "" [Raw "mapFromArrays(arrayFilter( (x,y) -> x != '' AND y != '',  ["; Sep "," (map StrV names);
-            Raw ("] as re_lbls_" ++ i ++ ",  arrayMap(x -> x[length(x)], extractAllGroupsHorizontal(string, ");
+            Raw ("] as re_lbls_" ++ i ++ ",  arrayMap(x -> x[1], extractAllGroupsHorizontal(string, ");
             StrV re;
             Raw (")) as re_vals_" ++ i ++ "),arrayFilter((x,y) -> x != '' AND y != '', re_vals_" ++ i ++ ", re_lbls_" ++ i ++ "))")]).
 
